@@ -141,8 +141,14 @@ def _prune_old_facts(keep=6):
     except OSError:
         return
     ds.sort(key=lambda d: os.path.getmtime(d))
+    now = time.time()
     for d in ds[:-keep]:
-        if os.path.basename(d) != tree_hash():
+        # never touch a fact set that another check process (analysing another tree) may be writing or reading right now
+        try:
+            recent = now - os.path.getmtime(d) < 3 * 3600
+        except OSError:
+            continue
+        if os.path.basename(d) != tree_hash() and not recent:
             shutil.rmtree(d, ignore_errors=True)
 
 
